@@ -264,7 +264,32 @@ def set_case(case):
     return {"ok": True, "nt": True, "ops": len(cs), "out": "set%d" % len(cs)}
 
 
-FUNCS = {"gates": roundtrip_case, "wrappers": roundtrip_case, "circuits": roundtrip_case, "circuit_sets": set_case}
+def history_case(case):
+    """{'entry': matrix entry kind, 'order': 'loaded+orig'|'orig+loaded'}: a circuit with a custom gate goes through the text format, comes back, is extended with
+    gates made from the ORIGINAL in-memory definition (same name, matrix equal up to the printed precision) and is serialised again"""
+    from orquestra.quantum import circuits as C
+    x = {"sqrt": 2 ** -0.5, "third": 1 / 3, "exact": sympy.sqrt(2) / 2, "cos": float(np.cos(0.3))}[case["entry"]]
+    M = sympy.Matrix([[x, x], [x, -x]]) if case["entry"] != "third" else sympy.Matrix([[1, 0], [0, sympy.exp(sympy.I * x)]])
+    d = C.CustomGateDefinition("MyH", M, ())
+    c1 = C.Circuit([d()(0), C.CNOT(0, 1), d()(1)])
+    back = C.circuit_from_dict(json.loads(json.dumps(C.to_dict(c1))))
+    bad = circuits_equal(c1, back)
+    if bad:
+        return {"ok": False, "msg": "first round trip: " + bad, "sig": "history:first"}
+    extra = C.Circuit([d()(2), d().controlled(1)(0, 2)])
+    c2 = back + extra if case["order"] == "loaded+orig" else extra + back
+    exp = c1 + extra if case["order"] == "loaded+orig" else extra + c1
+    try:
+        again = C.circuit_from_dict(json.loads(json.dumps(C.to_dict(c2))))
+    except Exception as e:  # noqa: BLE001
+        return {"ok": False, "msg": "a loaded circuit extended with gates of the original definition cannot be serialised again: %s: %s" % (type(e).__name__, e), "sig": "history:second-refused"}
+    bad = circuits_equal(exp, again)
+    if bad:
+        return {"ok": False, "msg": "second round trip: " + bad, "sig": "history:second"}
+    return {"ok": True, "nt": True, "ops": 2, "out": case["entry"]}
+
+
+FUNCS = {"histories": history_case, "gates": roundtrip_case, "wrappers": roundtrip_case, "circuits": roundtrip_case, "circuit_sets": set_case}
 
 WRAPS = [("controlled", {"k": 1}), ("controlled", {"k": 2}), ("dagger", {}), ("power", {"e": 2}), ("power", {"e": 0.5}), ("exp", {})]
 
@@ -357,5 +382,12 @@ def run(run):
             a = {"g": "named", "name": nm, "variant": 0, **({"p": p} if p else {})}
             b = {"g": "named", "name": nm, "variant": 1, **({"p": p} if p else {})}
             sets += [{"circuits": [one(a), one(b)], "pipe": "json"}, {"circuits": [one(b), one(G("X")), one(a), one(b)], "pipe": "stringio"}]
+    # members that are equal up to the comparison tolerance of gates but NOT identical (finite-difference style), and identical members repeated
+    for g1, g2 in ((G("RX", 0.3), G("RX", 0.3 + 1e-9)), (G("U3", 0.1, 0.2, 0.3), G("U3", 0.1, 0.2, 0.3 + 5e-10)), (G("CPHASE", 1e-9), G("CPHASE", 2e-9)), (G("custom2p", 0.3, 0.7), G("custom2p", 0.3, 0.7 - 1e-9)),
+                   (W("controlled", G("RZ", 1.0), k=1), W("controlled", G("RZ", 1.0 + 2e-9), k=1))):
+        for pipe in ("json", "stringio"):
+            sets += [{"circuits": [one(g1), one(g2)], "pipe": pipe}, {"circuits": [one(g2), one(g1), one(g1), one(g2)], "pipe": pipe}]
+    secs.append(Section("histories", [{"entry": e, "order": o} for e in ("sqrt", "third", "exact", "cos") for o in ("loaded+orig", "orig+loaded")], history_case, horizon=120,
+                        desc="load a circuit with a custom gate, extend it with gates of the original definition, serialise again"))
     secs.append(Section("circuit_sets", sets, set_case, horizon=120, desc="lists of circuits through to_dict/JSON/circuitset_from_dict and save_/load_circuitset"))
     run.run_sections(secs)
